@@ -162,6 +162,16 @@ fn magnitude(kind: Kind, c: &[f64], t: f64) -> f64 {
     }
 }
 
+/// Magnitude of the terms the ORACLE sums (double-double evaluation of t*q(ln t) or of the
+/// polynomial antiderivative): bounds the oracle's own cancellation error.
+fn oracle_magnitude(kind: Kind, c: &[f64], t: f64) -> f64 {
+    match kind {
+        Kind::L(4) => magnitude(Kind::L(8), c, t), // generic t*sum Q_j |ln t|^j, whatever the degree
+        _ => magnitude(kind, c, t),
+    }
+}
+const ORACLE_EPS: f64 = 1e-28;
+
 /// Relative error unit granted to the library for one evaluation of an integral form
 /// (C01's 4(n+2)*2^-53 and C10's 1e-12, times a safety factor).
 fn unit_error(kind: Kind) -> f64 {
@@ -186,29 +196,14 @@ struct ChainPiece {
 }
 
 impl Chain {
-    /// `first`: None for `indefinite()` (piece 0 is the raw zero-constant form), Some(knot) for `integral(knot)`.
-    fn build(kind: Kind, ends: &[f64], coefs: &[Vec<f64>], first: Option<(f64, f64)>) -> Chain {
+    /// Thread expected values and tolerances from a start knot `(x, y)` that the first piece passes through.
+    fn build(kind: Kind, ends: &[f64], coefs: &[Vec<f64>], first: (f64, f64)) -> Chain {
         let cu = unit_error(kind);
         let mut pieces = Vec::with_capacity(ends.len());
-        let mut xk;
-        let mut y_true;
-        let mut tau;
-        let mut start = 0;
-        match first {
-            Some((x, y)) => {
-                xk = x;
-                y_true = DD::from(y);
-                tau = 0.0;
-            }
-            None => {
-                // piece 0: F(t) = G_0(t); error only from evaluating the form
-                pieces.push(ChainPiece { xk: f64::NAN, y_true: DD::ZERO, e_const: 0.0, base: 0.0 });
-                xk = ends[0];
-                y_true = antiderivative(kind, &coefs[0], xk);
-                tau = cu * magnitude(kind, &coefs[0], xk);
-                start = 1;
-            }
-        }
+        let mut xk = first.0;
+        let mut y_true = DD::from(first.1);
+        let mut tau = 0.0;
+        let start = 0;
         for i in start..ends.len() {
             let mk = magnitude(kind, &coefs[i], xk);
             let base = y_true.hi.abs() + tau + mk;
@@ -218,7 +213,8 @@ impl Chain {
             let t = ends[i];
             let p = pieces.last().unwrap();
             let exp_t = p.y_true.add(antiderivative(kind, &coefs[i], t).sub(antiderivative(kind, &coefs[i], xk)));
-            let tol_t = p.e_const + cu * (p.base + magnitude(kind, &coefs[i], t));
+            let tol_t = p.e_const + cu * (p.base + magnitude(kind, &coefs[i], t))
+                + ORACLE_EPS * (oracle_magnitude(kind, &coefs[i], t) + oracle_magnitude(kind, &coefs[i], p.xk));
             xk = t;
             y_true = exp_t;
             tau = tol_t;
@@ -229,11 +225,9 @@ impl Chain {
     fn expected(&self, kind: Kind, coefs: &[Vec<f64>], i: usize, t: f64) -> (DD, f64) {
         let cu = unit_error(kind);
         let p = &self.pieces[i];
-        if p.xk.is_nan() {
-            return (antiderivative(kind, &coefs[i], t), cu * magnitude(kind, &coefs[i], t));
-        }
         let e = p.y_true.add(antiderivative(kind, &coefs[i], t).sub(antiderivative(kind, &coefs[i], p.xk)));
-        let tol = p.e_const + cu * (p.base + magnitude(kind, &coefs[i], t));
+        let tol = p.e_const + cu * (p.base + magnitude(kind, &coefs[i], t))
+            + ORACLE_EPS * (oracle_magnitude(kind, &coefs[i], t) + oracle_magnitude(kind, &coefs[i], p.xk));
         (e, tol)
     }
 }
@@ -475,8 +469,18 @@ where
     drop(itb);
 
     // ---- values: through the knot, continuity, true integral ---------------------------
-    let chain_c = Chain::build(kind, &scn.ends, &scn.coefs, Some(scn.knot));
-    let chain_d = Chain::build(kind, &scn.ends, &scn.coefs, None);
+    let chain_c = Chain::build(kind, &scn.ends, &scn.coefs, scn.knot);
+    // indefinite(): which antiderivative the first piece is (its additive constant) is form-specific
+    // (the quartic log form and t*q(ln t) differ by a constant), so the chain is anchored black-box at
+    // the library's own value of the first piece at its end.
+    let d_anchor = match guard(|| d.segments[0].evaluate(scn.ends[0])) {
+        Ok(v) => v,
+        Err(p) => return IRes::Violation("panic".into(), format!("evaluating the first piece of indefinite() panicked: {p}")),
+    };
+    if !d_anchor.is_finite() {
+        return IRes::Discard;
+    }
+    let chain_d = Chain::build(kind, &scn.ends, &scn.coefs, (scn.ends[0], d_anchor));
     let in_first = n == 1 || scn.knot.0 < scn.ends[0];
     if in_first {
         cov.hit("probe_knot_in_first_piece_domain");
@@ -526,7 +530,7 @@ where
                     "tolerance".into(),
                     format!(
                         "{which}: piece {i} at t={t:e} ({what}) evaluates to {v:e}; the integral threaded from {} is {:e}; error {err:e} exceeds the tolerance {tol:e}",
-                        if which == "integral(k0)" { format!("the knot ({:e},{:e})", scn.knot.0, scn.knot.1) } else { "the zero-constant first piece".to_string() },
+                        if which == "integral(k0)" { format!("the knot ({:e},{:e})", scn.knot.0, scn.knot.1) } else { format!("the first piece's own value at its end ({:e},{:e})", scn.ends[0], d_anchor) },
                         e.hi
                     ),
                 );
